@@ -356,11 +356,21 @@ impl Request {
         match content_length {
             0 => (),
             PAYLOAD_LIMIT.. => return Err((|| Response::PayloadTooLarge())()),
-            _ => self.payload = Some(Request::read_payload(
+            _ => self.payload = Some(match Request::read_payload(
                 stream,
                 r.remaining(),
                 content_length,
-            ).await)
+            ).await {
+                Ok(payload) => payload,
+                /* the peer went away before sending whole the payload */
+                Err(e) => return match e.kind() {
+                    std::io::ErrorKind::UnexpectedEof | std::io::ErrorKind::ConnectionReset => Ok(None),
+                    _ => Err((|err| {
+                        crate::warning!("Failed to read stream: {err}");
+                        Response::InternalServerError()
+                    })(e))
+                }
+            })
         }
 
         Ok(Some(()))
@@ -372,23 +382,23 @@ impl Request {
         stream:        &mut (impl AsyncRead + Unpin),
         remaining_buf: &[u8],
         size:          usize,
-    ) -> CowSlice {
+    ) -> std::io::Result<CowSlice> {
         let remaining_buf_len = remaining_buf.len();
 
         if remaining_buf_len == 0 {
             #[cfg(feature="DEBUG")] println!("\n[read_payload] case: remaining_buf.is_empty()\n");
 
             let mut bytes = vec![0; size].into_boxed_slice();
-            stream.read_exact(&mut bytes).await.unwrap();
-            CowSlice::Own(bytes)
+            stream.read_exact(&mut bytes).await?;
+            Ok(CowSlice::Own(bytes))
 
         } else if size <= remaining_buf_len {
             #[cfg(feature="DEBUG")] println!("\n[read_payload] case: starts_at + size <= BUF_SIZE\n");
 
             #[allow(unused_unsafe/* I don't know why but rustc sometimes put warnings to this unsafe as unnecessary */)]
-            CowSlice::Ref(unsafe {
+            Ok(CowSlice::Ref(unsafe {
                 Slice::new_unchecked(remaining_buf.as_ptr(), size)
-            })
+            }))
 
         } else {
             #[cfg(feature="DEBUG")] println!("\n[read_payload] case: else\n");
@@ -396,9 +406,9 @@ impl Request {
             let mut bytes = vec![0; size].into_boxed_slice();
             unsafe {// SAFETY: Here size > remaining_buf_len
                 bytes.get_unchecked_mut(..remaining_buf_len).copy_from_slice(remaining_buf);
-                stream.read_exact(bytes.get_unchecked_mut(remaining_buf_len..)).await.unwrap();
+                stream.read_exact(bytes.get_unchecked_mut(remaining_buf_len..)).await?;
             }
-            CowSlice::Own(bytes)
+            Ok(CowSlice::Own(bytes))
         }
     }
 
